@@ -60,6 +60,8 @@ fn gen_schema(g: &mut Gen) -> Schema {
 struct Ctx<'a> {
     g: &'a mut Gen,
     s: &'a Schema,
+    /// values present in the data set, per entity and field (filters and cursors mostly use them)
+    seen: &'a Vec<Vec<Vec<Val>>>,
     lines: Vec<String>,
     next_node: usize,
     alias_n: usize,
@@ -67,6 +69,15 @@ struct Ctx<'a> {
 
 fn scalar_fields(e: &[F]) -> Vec<usize> {
     e.iter().enumerate().filter(|(_, f)| "ISB".contains(f.ty)).map(|(j, _)| j).collect()
+}
+
+fn data_val(cx: &mut Ctx, ent: usize, j: usize, ty: char) -> Val {
+    let pool = &cx.seen[ent][j];
+    if !pool.is_empty() && cx.g.chance(3, 5) {
+        pool[cx.g.below(pool.len())].clone()
+    } else {
+        pool_val(ty, cx.g)
+    }
 }
 
 /// emits the lines of one selection node; returns its node number
@@ -144,7 +155,7 @@ fn gen_node(cx: &mut Ctx, ent: usize, depth: usize, root_alias: bool, paging_ok:
         let (op, v) = if nullable_now && cx.g.chance(1, 5) {
             (["eq", "ne"][cx.g.below(2)], Val::Null)
         } else {
-            (["eq", "ne", "lt", "le", "gt", "ge", "ne", "le", "ge"][cx.g.below(9)], pool_val(f.ty, cx.g))
+            (["eq", "ne", "lt", "le", "gt", "ge", "ne", "le", "ge"][cx.g.below(9)], data_val(cx, ent, j, f.ty))
         };
         cx.lines.push(format!("qf n={} name={} sel={} f={} op={} v={}{}", n, name, sel as u8, j, op, v.show(), if var { " var=1" } else { "" }));
     }
@@ -191,11 +202,58 @@ fn gen_node(cx: &mut Ctx, ent: usize, depth: usize, root_alias: bool, paging_ok:
     }
     if cursor {
         let k = 1 + cx.g.below(orders.len());
-        let vals: Vec<String> = orders[..k].iter().map(|(_, j, _)| pool_val(e[*j].ty, cx.g).show()).collect();
+        let mut vals: Vec<String> = vec![];
+        for (_, j, _) in orders[..k].iter() {
+            vals.push(data_val(cx, ent, *j, e[*j].ty).show());
+        }
         let kind = if cx.g.chance(2, 3) { "after" } else { "before" };
         cx.lines.push(format!("qa n={} kind={} v={}", n, kind, vals.join("|")));
     }
     n
+}
+
+/// a grouped query at the root: count()/min()/max() over required Integer fields, grouped by 0-2 scalars
+/// whose stored value is what a selection shows (required, or nullable without a later default)
+fn gen_aggregate(cx: &mut Ctx, ent: usize) {
+    let e = cx.s.ents[ent].clone();
+    cx.lines.push(format!("q n=0 ent={}", ent));
+    let plain: Vec<usize> = e.iter().enumerate().skip(1)
+        .filter(|(_, f)| "ISB".contains(f.ty) && !f.late && f.then.is_none() && f.md != 'd')
+        .map(|(j, _)| j).collect();
+    let mut keys: Vec<(String, usize)> = vec![];
+    for &j in &plain {
+        if keys.len() < 2 && cx.g.chance(1, 2) {
+            cx.lines.push(format!("qs n=0 key=f{} f={}", j, j));
+            keys.push((format!("f{}", j), j));
+        }
+    }
+    let ints: Vec<usize> = e.iter().enumerate().filter(|(_, f)| f.ty == 'I' && f.md == 'r' && !f.late).map(|(j, _)| j).collect();
+    let mut aggs: Vec<String> = vec![];
+    cx.lines.push("qg n=0 key=cnt fn=count f=0".to_string());
+    aggs.push("cnt".into());
+    for (k, fun) in ["min", "max"].iter().enumerate() {
+        if cx.g.chance(2, 3) {
+            let j = ints[cx.g.below(ints.len())];
+            cx.lines.push(format!("qg n=0 key=g{} fn={} f={}", k, fun, j));
+            aggs.push(format!("g{}", k));
+        }
+    }
+    // a filter on a field (applies to the rows before grouping)
+    if cx.g.chance(1, 2) {
+        let scalars = scalar_fields(&e);
+        let j = scalars[cx.g.below(scalars.len())];
+        let v = data_val(cx, ent, j, e[j].ty);
+        cx.lines.push(format!("qf n=0 name=f{} sel=0 f={} op={} v={}", j, j, ["ne", "le", "ge", "lt"][cx.g.below(4)], v.show()));
+    }
+    for (name, j) in &keys {
+        if cx.g.chance(2, 3) {
+            cx.lines.push(format!("qo n=0 name={} sel=0 f={} dir={}", name, j, if cx.g.chance(1, 3) { "desc" } else { "asc" }));
+        }
+    }
+    if cx.g.chance(1, 2) {
+        let a = &aggs[cx.g.below(aggs.len())];
+        cx.lines.push(format!("qo n=0 name={} sel=1 f=0 dir={}", a, if cx.g.chance(1, 2) { "desc" } else { "asc" }));
+    }
 }
 
 pub fn gen(seed: u64, n_cases: usize, out: &str, tier: &str) {
@@ -230,6 +288,7 @@ pub fn gen(seed: u64, n_cases: usize, out: &str, tier: &str) {
         let total: usize = s.ents.iter().map(|_| g.below(max_rows + 1)).sum();
         let split = g.below(total + 1);
         let mut by_ent: Vec<Vec<u64>> = vec![vec![]; s.ents.len()];
+        let mut seen: Vec<Vec<Vec<Val>>> = s.ents.iter().map(|e| vec![vec![]; e.len()]).collect();
         let mut upgraded = false;
         for r in 0..total {
             if r == split {
@@ -239,6 +298,7 @@ pub fn gen(seed: u64, n_cases: usize, out: &str, tier: &str) {
             let id = (r + 1) as u64;
             let e = g.below(s.ents.len());
             let mut vals = vec![format!("0:I{}", id)];
+            seen[e][0].push(Val::Int(id as i64));
             let mut refs = vec![];
             for (j, f) in s.ents[e].iter().enumerate().skip(1) {
                 if f.late && !upgraded {
@@ -254,6 +314,9 @@ pub fn gen(seed: u64, n_cases: usize, out: &str, tier: &str) {
                         };
                         if give {
                             let v = if f.md == 'n' && !now_default && g.chance(1, 3) { Val::Null } else { pool_val(f.ty, &mut g) };
+                            if v != Val::Null {
+                                seen[e][j].push(v.clone());
+                            }
                             vals.push(format!("{}:{}", j, v.show()));
                         }
                     }
@@ -290,8 +353,18 @@ pub fn gen(seed: u64, n_cases: usize, out: &str, tier: &str) {
         // ---- queries
         for _ in 0..(3 + g.below(4)) {
             let ent = g.below(s.ents.len());
+            if g.chance(1, 8) {
+                let mut cx = Ctx { g: &mut g, s: &s, seen: &seen, lines: vec![], next_node: 0, alias_n: 0 };
+                gen_aggregate(&mut cx, ent);
+                for l in &cx.lines {
+                    writeln!(w, "{}", l).unwrap();
+                }
+                writeln!(w, "run").unwrap();
+                n_queries += 1;
+                continue;
+            }
             let want_pages = g.chance(1, 4);
-            let mut cx = Ctx { g: &mut g, s: &s, lines: vec![], next_node: 0, alias_n: 0 };
+            let mut cx = Ctx { g: &mut g, s: &s, seen: &seen, lines: vec![], next_node: 0, alias_n: 0 };
             let root_alias = cx.g.chance(1, 4);
             gen_node(&mut cx, ent, 0, root_alias, !want_pages);
             let lines = cx.lines;
